@@ -1,7 +1,7 @@
 #!/bin/bash
 # Offline setup: warm the Go build cache by building every harness once.
 cd "$(dirname "$0")"
-ids=$(python3 -c "import json;print(' '.join(k for k,c in json.load(open('checks.json')).items() if not c.get('disabled')))")
+ids=$(ls checks.d | sed 's/\.json$//')
 rc=0
 printf '%s\n' $ids | xargs -P 4 -I{} ./vcheck {} --build-only || rc=$?
 exit 0
